@@ -24,7 +24,7 @@ From Coq Require Export ZArith NArith List Bool.
 Local Open Scope Z_scope.
 
 Inductive cub : Type :=
-| UB_signed_overflow | UB_shift | UB_div_zero | UB_uninit_read | UB_no_return.
+| UB_signed_overflow | UB_shift | UB_div_zero | UB_uninit_read | UB_no_return | UB_null_deref.
 
 Inductive cres (A : Type) : Type :=
 | COk (a : A)
